@@ -822,6 +822,11 @@ namespace
             runtime.__logmsg(err::NegativeSize(runtime.context_active().current_frame().diag_info_from_position()));
             return {};
         }
+        if (f > static_cast<float>(d_array::max_size()))
+        {
+            runtime.__logmsg(err::IndexOutOfRange(runtime.context_active().current_frame().diag_info_from_position(), d_array::max_size(), f >= 18446744073709551616.0f ? ~static_cast<size_t>(0) : static_cast<size_t>(f)));
+            return {};
+        }
         left.data<d_array>()->resize(static_cast<size_t>(f));
         return {};
     }
@@ -1253,6 +1258,11 @@ namespace
         if (index < 0)
         {
             runtime.__logmsg(err::NegativeIndex(runtime.context_active().current_frame().diag_info_from_position()));
+            return {};
+        }
+        if (static_cast<size_t>(index) >= d_array::max_size())
+        {
+            runtime.__logmsg(err::IndexOutOfRange(runtime.context_active().current_frame().diag_info_from_position(), d_array::max_size(), static_cast<size_t>(index)));
             return {};
         }
         auto val = params[1];
